@@ -251,3 +251,71 @@ def hsl_grey(ck, tier):
         ck.ob(base + '/lightness', 'PROVED' if comps[2] is g else 'REFUTED', f"lightness of grey g is {X.show(comps[2], 5)} (must be g exactly)")
     except Unsupported as ex:
         ck.ob(base, 'UNDECIDED', f"analysis lost: {ex}")
+
+def roundtrip_kernel(ctx):
+    it = ctx.interp(); st = State()
+    imgs = constructed_image(ctx, it, st, 'LinearRgb', 'linearrgb')
+    s, img = imgs[0]
+    o1 = it.call_fn(s, ctx.entry(CONVERSIONS['LinearRgb->Xyb'][0]), [img])
+    s1, xyb = o1[0]
+    o2 = it.call_fn(s1, ctx.entry(CONVERSIONS['Xyb->LinearRgb'][0]), [xyb])
+    s2, back = o2[0]
+    c = ctx.crate
+    dims_ok = field(c, back, 'width') is X.sym(X.USIZE, 'linearrgb.width') and field(c, back, 'height') is X.sym(X.USIZE, 'linearrgb.height')
+    obj, buf = vec_buf(s2, field(c, back, 'data'))
+    k, val, R = element_kernel(it, s2, obj)
+    return it, val, dims_ok
+
+def check_c05(ck, ctx, b, tier):
+    base = f"C05/{b}"
+    it, val, dims_ok = roundtrip_kernel(ctx)
+    ck.count('kernels')
+    ck.ob(base + '/dims', 'PROVED' if dims_ok else 'REFUTED', 'width and height preserved by the round trip', nontrivial=False)
+    rgb = pixel_atoms(val, 'linearrgb.data')
+    if sorted(rgb) != [0, 1, 2]:
+        raise Unsupported('round-trip kernel does not read the three components of its pixel')
+    an = Analyzer(atom_range=lambda n: (Fr(0), Fr(1)) if X.is_float(n.ty) else None)
+    outs = [an.ev(e) for e in val.fields]
+    apps = {}
+    for a in outs:
+        for aid in a.p.atoms():
+            info = an.atom_info[aid]
+            if info.get('kind') != 'app' or info.get('name') != 'cbrtf':
+                raise Unsupported(f"round-trip kernel atom of kind {info.get('kind')}")
+            apps[aid] = info
+    if len(apps) != 3:
+        raise Unsupported(f"round-trip kernel has {len(apps)} cube roots")
+    mix = {}
+    for aid, info in apps.items():
+        v, clamped = strip_clamp0(info['argnodes'][0])
+        a = an.ev(v)
+        if a.p.degree() > 1:
+            raise Unsupported('opsin mix not affine')
+        mix[aid] = dict(coef=[a.p.coef(rgb[j].id) for j in range(3)], const=a.p.constant(), err=a.err, hi=a.hi)
+    ids = sorted(apps)
+    for k in range(3):
+        key = f"{base}/component{k}"
+        a = outs[k]
+        W = {i: a.p.coef(i, i, i) for i in ids}
+        residue = Fr(0)
+        for m, c in a.p.t.items():
+            if m == () or (len(m) == 3 and m[0] == m[1] == m[2]):
+                continue
+            mag = Fr(1)
+            for x in m:
+                mag *= max(abs(an.atom_info[x]['lo']), abs(an.atom_info[x]['hi']))
+            residue += abs(c) * mag
+        # deviation polynomial in the pixel
+        lin = [sum(W[i] * mix[i]['coef'][j] for i in ids) - (1 if j == k else 0) for j in range(3)]
+        cst = sum(W[i] * mix[i]['const'] for i in ids) + a.p.constant()
+        import itertools
+        dmax = max(abs(cst + sum(l * x for l, x in zip(lin, c))) for c in itertools.product((Fr(0), Fr(1)), repeat=3))
+        e_cube = sum(abs(W[i]) * (mix[i]['err'] + mix[i]['hi'] * (3 * ULP_CBRT + 4 * ULP_CBRT * ULP_CBRT)) for i in ids)
+        bound = dmax + e_cube + residue + a.err
+        if bound <= Fr(5, 10 ** 5):
+            ck.ob(key, 'PROVED', f"|back - pixel| <= {float(bound):.3g} on [0,1]^3 (matrix identity defect {float(dmax):.3g}, cube/rounding {float(e_cube + a.err):.3g}, residue {float(residue):.3g}; given A-cbrt)")
+        elif dmax - (e_cube + residue + a.err) > Fr(5, 10 ** 5):
+            ck.ob(key, 'REFUTED', f"inverse does not invert the forward transform: INV*A - I has a defect of {float(dmax):.3g} in output component {k} (row of INV*A: {[float(l + (1 if j == k else 0)) for j, l in enumerate(lin)]}, constant {float(cst):.3g})")
+        else:
+            ck.ob(key, 'UNDECIDED', f"bound {float(bound):.3g} exceeds 5e-5")
+        ck.sample(dict(component=k, inv_times_a_row=[float(l + (1 if j == k else 0)) for j, l in enumerate(lin)], bound=float(bound)))
